@@ -27,7 +27,7 @@ FUNCTIONS = [
 TRUSTED = [
     'vertex equality/hash is a congruence (abstract sort Node: == is identity of the abstract value)',
     'RReach (left-generated closure, find_sources) and Reach (right-generated) are the same relation '
-    '(lean/Reach.lean; not used across contracts)',
+    '(proved in lean/Reach.lean, re-checked by `lean` in the thorough tier; not used across contracts)',
 ]
 ASSUMPTIONS = [
     'find_all_reachable is NOT proved: bounded stand-in only (exhaustive over all digraphs up to the stated vertex '
@@ -38,6 +38,24 @@ ASSUMPTIONS = [
 ]
 NOT_UNDER_CONTRACT = ['src.graph_utils.find_all_reachable (bounded)',
                       'src.analysis.type_dependency_analysis.is_combination_feasible (only consumes dfs; meaning is C03 residual)']
+
+
+def custom_proof(tier):
+    """thorough tier: re-check lean/Reach.lean (Reach and RReach are the same relation) with the installed Lean + Mathlib"""
+    if tier != 'thorough':
+        return []
+    import subprocess
+    import time
+    t0 = time.time()
+    try:
+        p = subprocess.run(['lean', os.path.join(HERE, 'lean', 'Reach.lean')], capture_output=True, text=True, timeout=900)
+        ok = p.returncode == 0 and 'error' not in (p.stdout + p.stderr)
+        why = (p.stdout + p.stderr).strip()[:300]
+    except Exception as e:      # lean missing / timeout: undecided, never a violation
+        return [dict(name='lean/Reach.lean/reach_iff_rreach', function='lean/Reach.lean', lineno=0, kind='proof',
+                     status='undecided', secs=time.time() - t0, backend='lean', reason='could not run lean: %r' % e)]
+    return [dict(name='lean/Reach.lean/reach_iff_rreach', function='lean/Reach.lean', lineno=0, kind='proof',
+                 status='proved' if ok else 'failed', secs=time.time() - t0, backend='lean 4 + Mathlib', reason=why)]
 
 
 def _load():
